@@ -73,7 +73,27 @@ def near_dups(t):
             t.replace('\t', ' '), t.lower(), t.upper(), t.replace('"', "'"), r + ' # c', r + ';', t.replace(' ', '')]
 
 
-def history(rng, texts, cache, evals_only=False):
+def scope_script(rng, nmaps):
+    """a lambda stored in a names mapping by one eval, a builtin name it uses (re)bound in that mapping by a LATER eval, the
+    stored lambda called again: names resolve at call time in the mapping of the call (dynamic scoping), whatever an
+    earlier evaluation resolved them to"""
+    B = rng.choice(['len', 'str', 'sum', 'max', 'abs', 'sorted', 'keys'])
+    arg = {'len': '[1, 2]', 'str': '5', 'sum': '[1, 2]', 'max': '[1, 5]', 'abs': '0 - 3', 'sorted': '[2, 1]', 'keys': '{"a": 1}'}[B]
+    m = rng.randrange(nmaps)
+    ev = lambda t, mm=None: ('eval', t, m if mm is None else mm, 'default', rng.randrange(1, 2 ** 31))
+    calls = [ev(rng.choice([f'fz = v => {B}(v); fz({arg})', f'fz = v => {B}(v)', f'fz = v => [{B}(v), {B}(v)]; {B}({arg})',
+                            f'gz = w => {B}; fz = v => apply(gz(0), v); fz({arg})', f'fz = v => try_apply({B}, v); fz({arg})']))]
+    if rng.random() < 0.5:
+        calls.append(ev(f'{B}({arg})'))
+    if nmaps > 1 and rng.random() < 0.4:
+        calls.append(ev(f'{B} = v => 11', (m + 1) % nmaps))
+    calls.append(ev(rng.choice([f'{B} = v => 77', f'{B} = 5', f'{B} = fz', f'{B} = v => [v]', f'x9 = 1; {B} = v => x9'])))
+    for _ in range(rng.randint(1, 3)):
+        calls.append(ev(rng.choice([f'fz({arg})', f'{B}({arg})', f'map([{arg}], fz)', f'[fz({arg}), {B}({arg})]', f'try_apply(fz, {arg})'])))
+    return calls
+
+
+def history(rng, texts, cache, evals_only=False, script=None):
     he = proggen.HostEnv(rng)
     nmaps = rng.randint(1, 3)
     maps = []
@@ -116,6 +136,8 @@ def history(rng, texts, cache, evals_only=False):
             calls.append(('hostpush', rng.randrange(nmaps), 'y', he.num()))
         else:
             calls.append(('eval', t, rng.randrange(nmaps) if rng.random() < 0.8 else 'none', rng.choice(['default', 'default', 30, 12, 1000, 5]), rng.randrange(1, 2 ** 31)))
+    if script is not None:
+        calls = script(rng, nmaps)
     def enc(c):
         if c[0] == 'parse':
             return f'(parse {hx(c[1])})'
